@@ -194,10 +194,10 @@ Definition max_ (t : ty) (a b : sval A) : res (sval A) :=
 Definition abs_ (t : ty) (a : sc A) : res (sval A) :=
   s <- sign a ;;
   if s =? -1 then neg t (snd a) else if s =? 0 then Val (zero_of (base_of t)) else set t (snd a).
-(* concrete ABS: if c.Sign() == -1 { c.NEG(a) } else { c.SET(a) } — tests the RECEIVER's old value *)
-Definition ABS_ (t : ty) (cold : sval A) (a : sval A) : res (sval A) :=
-  s <- sign (t, cold) ;;
-  if s =? -1 then neg t a else set t a.
+(* concrete ABS (since fix 2fc8894): switch a.Sign() { -1: c.NEG(a); 0: c.Reset(); 1: c.SET(a) } with a of the
+   receiver's own type — the same three cases as the generic Abs.  [cold] (the receiver's previous value; the
+   pre-fix code switched on ITS sign) is still supplied by the harness and must be irrelevant. *)
+Definition ABS_ (t : ty) (cold : sval A) (a : sval A) : res (sval A) := abs_ t (t, a).
 
 (* elementary math.* methods: x := a.GetFloat64(); c.SetFloat64(f(x)) — identical value path for Real types *)
 Definition un (t : ty) (f : ufn) (a : sval A) : res (sval A) := store (base_of t) (cfn C f (getf64 a)).
@@ -235,7 +235,10 @@ Definition log1pexp (tc : ty) (a : sval A) : res (sval A) :=
   let v := getf64 a in
   if cleb C v (clit C Lm37) then un tc FExp a
   else if cleb C v (clit C L18) then (c <- un tc FExp a ;; un tc FLog1p c)
-  else if cleb C v (clit C L33_3) then (c <- neg tc a ;; c <- un tc FExp c ;; arith tc OAdd c a)
+  else if cleb C v (clit C L33_3) then
+    (* since fix 7035970: t := NewScalar(c.Type(), 0.0); t.Neg(a); t.Exp(t); c.Add(a, t) — the temporary has the
+       RECEIVER's type (an integer receiver truncates e^-x to 0), the final sum is a + t in this operand order *)
+    (t <- neg tc a ;; t <- un tc FExp t ;; arith tc OAdd a t)
   else set tc a.
 Definition sigmoid (tc tq : ty) (a : sval A) : res (sval A) :=
   if cleb C (clit C L0) (getf64 a) then
